@@ -10,7 +10,7 @@ from vmon.hostile import hostile_selfies, LEGACY, MODERN
 from vmon.legacy import modernize
 from vmon.refsem import ref_decode, RefReject, tokens_with_dots
 from vmon.selfgen import LiveGen
-from vmon.totality import Totality, branch_symbol_count
+from vmon.totality import Totality, AbortWorkload, branch_symbol_count
 
 ID = "C08"
 LEVEL = "exploration"
@@ -83,32 +83,35 @@ def run(ctx):
     g = LiveGen(sf.get_semantic_constraints(), rng, p_junk=0.02)
     n = 2200 if quick else 40000
     tables = ["default", "octet_rule", "hypervalent", {"?": 0}, {"?": 12, "C": 1, "Fe+2": 0}]
-    for i in range(n):
-        if i % 200 == 0:
-            sf.set_semantic_constraints(rng.choice(tables))
-        if i % 10 == 9:
-            cls, x = "live", g.string(rng.choice([1, 2, 3]), rng.choice([5, 30, 100]))
-            if rng.random() < 0.5:
-                toks = tokens_with_dots(x)
-                toks.insert(rng.randrange(len(toks) + 1), rng.choice(LEGACY))
-                x = "".join(toks)
-        else:
-            cls, x = hostile_selfies(rng, seeds)
-        if len(x) > 40000:
-            x = x[:40000]
-        ctx.count("class." + cls)
-        nt = len(x) >= 3
-        for compat in (False, True):
-            for attr in (False, True):
-                if cls in ("deep", "long", "digits") and (compat or attr) and rng.random() < 0.5:
-                    continue   # the expensive classes get half of the extra flag combinations
-                if compat:
-                    ctx.count("flags.compatible")
-                if attr:
-                    ctx.count("flags.attribute")
-                T.call(x, (compat, attr), cls)
-                ctx.case((x, compat, attr), nt, sample={"input": x[:120], "class": cls, "compatible": compat, "attribute": attr}
-                         if cls in ("tokens", "legacy", "chars") and len(x) > 10 else None)
+    try:
+        for i in range(n):
+            if i % 200 == 0:
+                sf.set_semantic_constraints(rng.choice(tables))
+            if i % 10 == 9:
+                cls, x = "live", g.string(rng.choice([1, 2, 3]), rng.choice([5, 30, 100]))
+                if rng.random() < 0.5:
+                    toks = tokens_with_dots(x)
+                    toks.insert(rng.randrange(len(toks) + 1), rng.choice(LEGACY))
+                    x = "".join(toks)
+            else:
+                cls, x = hostile_selfies(rng, seeds)
+            if len(x) > 40000:
+                x = x[:40000]
+            ctx.count("class." + cls)
+            nt = len(x) >= 3
+            for compat in (False, True):
+                for attr in (False, True):
+                    if cls in ("deep", "long", "digits") and (compat or attr) and rng.random() < 0.5:
+                        continue   # the expensive classes get half of the extra flag combinations
+                    if compat:
+                        ctx.count("flags.compatible")
+                    if attr:
+                        ctx.count("flags.attribute")
+                    T.call(x, (compat, attr), cls)
+                    ctx.case((x, compat, attr), nt, sample={"input": x[:120], "class": cls, "compatible": compat, "attribute": attr}
+                             if cls in ("tokens", "legacy", "chars") and len(x) > 10 else None)
+    except AbortWorkload as e:
+        ctx.count("workload_aborted_after_step_bound_violations")
     T.close()
     if not quick:
         atheris_campaign(ctx, "decoder", runs=150000)
